@@ -1560,3 +1560,8 @@ mod test {
         });
     }
 }
+
+#[cfg(kani)]
+mod verif_kani {
+    include!(concat!(env!("IPA_VERIF_DIR"), "/kani/report_hybrid.rs"));
+}
